@@ -112,5 +112,6 @@ def write_broken_evidence(pid, tier, msg):
           'coverage': {'explanation': 'analysis broken: ' + msg, 'obligations': 0, 'discharged': 0,
                        'analysis_broken': [msg]},
           'wall_s': 0.0, 'violations': 0}
-    os.makedirs(os.path.join(VERIF, 'evidence'), exist_ok=True)
-    json.dump(ev, open(os.path.join(VERIF, 'evidence', '%s.json' % pid), 'w'), indent=1)
+    from .report import EVID
+    os.makedirs(EVID, exist_ok=True)
+    json.dump(ev, open(os.path.join(EVID, '%s.json' % pid), 'w'), indent=1)
